@@ -366,34 +366,30 @@ def _fn_body(text, name):
     return None
 
 
-def _accesses(text, body, pattern, depth=0):
-    """context accesses in `body`, in order; a call of a function defined in the same file that is handed
-    the context (helper(ctx, ..), self.helper(ctx), Self::helper(.., ctx)) contributes its own accesses there"""
-    events = [(m.start(), ('acc', m.group(1))) for m in re.finditer(pattern, body)]
-    if depth < 3:
-        for m in re.finditer(r'\b(\w+)\s*\(([^()]*\bctx\b[^()]*)\)', body):
-            name = m.group(1)
-            if re.match(pattern.replace(r'\bctx\.', ''), name + '(') and re.search(r'ctx\.' + name + r'\s*\($', body[:m.end(1)] + '('):
-                continue
-            if body[max(0, m.start() - 4):m.start()].endswith('ctx.'):
-                continue                      # a method of the context itself
-            hb = _fn_body(text, name)
-            if hb is not None and hb != body:
-                events.append((m.start(), ('call', hb)))
+def _accesses(text, body, depth=0, seen=()):
+    """accesses to a shared driver context in `body`, in source order: a call `.<accessor>(` of one of the context's
+    accessors counts; a call of a function or method DEFINED IN THE SAME FILE contributes the accesses of its body at
+    that point (followed up to four levels, recursion cut) - so that extracting helpers does not change the shape"""
     out = []
-    for _, (k, v) in sorted(events, key=lambda e: e[0]):
-        out += [v] if k == 'acc' else _accesses(text, v, pattern, depth + 1)
+    for m in re.finditer(r'(\.)?\b(\w+)\s*\(', body):
+        dot, name = m.group(1), m.group(2)
+        if dot and name in ACC:
+            out.append(name)
+        elif depth < 4 and name not in seen and name not in ACC:
+            hb = _fn_body(text, name)
+            if hb is not None and hb != body and len(hb) < 20000:
+                out += _accesses(text, hb, depth + 1, seen + (name,))
     return out
 
 
-def shape(defname, rel, fn, pattern=r'\bctx\.(\w+)\s*\('):
+def shape(defname, rel, fn):
     text = _strip_comments(src(rel))
     body = _fn_body(text, fn)
     if body is None:
         errors.append('%s: fn %s not found in %s' % (defname, fn, rel))
         return
-    accs = [ACC.get(a, 9) for a in _accesses(text, body, pattern)]
-    defs.append((defname, 'list Z', '[' + '; '.join(str(a) for a in accs) + ']', '%s fn %s: context accesses in order (helpers of the same file that take the context are followed)' % (rel, fn)))
+    accs = [ACC[a] for a in _accesses(text, body, 0, (fn,))]
+    defs.append((defname, 'list Z', '[' + '; '.join(str(a) for a in accs) + ']', '%s fn %s: context accesses in order (functions of the same file are followed)' % (rel, fn)))
 
 
 shape('shape_hcu_tick', 'driver/net/hydraulic.rs', 'tick')
@@ -403,10 +399,9 @@ shape('shape_volvo_tick', 'driver/net/volvo_ems.rs', 'tick')
 shape('shape_volvo_trigger', 'driver/net/volvo_ems.rs', 'trigger')
 shape('shape_volvo_try_recv', 'driver/net/volvo_ems.rs', 'try_recv')
 shape('shape_ems_try_recv', 'driver/net/engine.rs', 'try_recv')
-_ctxacc = r'\b(?:driver|drv)\.(?:context\.)?(tx_last_message|set_tx_last_message|rx_last_message|set_rx_last_message|rx_mark|rx_count|is_rx_timeout)\s*\('
-shape('shape_authority_recv', 'service/authority.rs', 'recv', _ctxacc)
-shape('shape_authority_on_tick', 'service/authority.rs', 'on_tick', _ctxacc)
-shape('shape_authority_on_command', 'service/authority.rs', 'on_command', _ctxacc)
+shape('shape_authority_recv', 'service/authority.rs', 'recv')
+shape('shape_authority_on_tick', 'service/authority.rs', 'on_tick')
+shape('shape_authority_on_command', 'service/authority.rs', 'on_command')
 
 
 # ---- the premise of the schedule model: every accessor of the shared NetDriverContext is ONE critical
